@@ -18,7 +18,8 @@ Definition same_key (x y : link) : bool :=
 Definition rough_eq (x y : link) : bool :=
   str_eqb (l_href x) (l_href y) || str_eqb (lower_text x) (lower_text y).
 
-(* ---- Link._clean_href: re.match(r'^([\w+\-]+:)?//[^/]+', href), origin lower-cased ---- *)
+(* ---- Link._clean_href: re.match(r'^([\w+\-]+:)?//[^/?#]+', href), origin lower-cased: the origin ends where the path,
+   the query or the fragment begins ---- *)
 Definition scheme_char (c : N) : bool := re_word c || N.eqb c 43 || N.eqb c 45.
 
 Fixpoint span_pred (p : N -> bool) (s : str) : str * str :=
@@ -32,7 +33,7 @@ Definition origin_split (href : str) : option (str * str) :=
   let try_slashes (pre s : str) : option (str * str) :=
     match s with
     | 47 :: 47 :: r =>
-        let (host, rest) := span_pred (fun c => negb (N.eqb c 47)) r in
+        let (host, rest) := span_pred (fun c => negb (N.eqb c 47 || N.eqb c 63 || N.eqb c 35)) r in
         match host with
         | [] => None
         | _ => Some (pre ++ [47; 47] ++ host, rest)
